@@ -78,9 +78,10 @@ Proof. vm_compute; reflexivity. Qed.
    Derived / typed accessors (MacsecHeaderSlice::ptype / next_ether_type / header_len /
    expected_payload_len / is_unmodified, Ipv4HeaderSlice::payload_len / is_fragmenting_payload,
    Ipv6HeaderSlice::dscp / ecn, Ipv6FragmentHeaderSlice::is_fragmenting_payload,
-   LinuxSllHeaderSlice::sender_address, Ethernet2Slice::fcs, payload() / payload_slice() /
-   header_slice(), UdpSlice::payload_len_source, icmp_type() / header() / header_len()) are not
-   in the field theorem: their windows are C01_windows_inside, typed readings C17 / C13. *)
+   LinuxSllHeaderSlice::sender_address, Ethernet2Slice::fcs, payload_slice() / header_slice() /
+   payload() windows, UdpSlice::payload_len_source, header_len(), the IP payload descriptors)
+   are not in THIS theorem family; they are the `C03_fields2_from_X` family at the end of this
+   file.  icmp_type() / header() (typed ICMP messages) and TCP option elements are C17 / C13. *)
 From EP Require Import Parse.Access Parse.Fields Parse.FieldsProofs.
 
 Theorem C03_fields_from_ethernet : forall bs p, bytes_ok bs ->
@@ -419,3 +420,230 @@ Example C03_classes_ex :
    vres_of (SlicedPacket.from_ethernet bs) = wire_ethernet bs /\
    classify bs (ELen (mkLenError 8 5 LsUdpHeaderLen LyUdpHeader 38)) = Some EcLenFieldBelowHeader).
 Proof. repeat split; vm_compute; reflexivity. Qed.
+
+(* ==== audit rounds 1 + 2 follow-up: DERIVED and TYPED accessor values =====================
+   Spec  : Parse/Fields2.v `spec_fields2 bs v` -- per layer of the view the values the formats
+           prescribe for accessors that combine several raw fields or return a sub-window,
+           defined from the RFC / IEEE fields at the layer's ABSOLUTE position (pinned below,
+           `C03_fields2_pin_X`): MACsec payload type / next ether type / header length /
+           expected payload length / unmodified flag from the E, C, SC bits and SL; IPv4 payload
+           length = total length - IHL*4 and "fragmenting" = MF or offset <> 0; IPv6 DSCP / ECN
+           = upper 6 / lower 2 bits of the traffic class; "fragmenting" of every fragment
+           header the iterator yields; the SLL sender address window (min(length field, 8)
+           octets); FCS absent, header and payload windows of Ethernet II / SLL / VLAN / UDP /
+           TCP / ICMPv4 / ICMPv6 (the window behind the header, ending where `nested` says);
+           the four ARP address windows; UDP length source; TCP header length = data offset * 4;
+           ICMPv4 header length 20 for timestamp messages, else 8; the IP payload descriptor
+           (protocol number, fragmentation flag, length source, window) of IPv4 (+AH) and IPv6
+           (+extension chain).
+   Model : Parse/Fields2.v `fields2_of_packet p` -- the accessor models of Parse/Access.v
+           (is_unmodified, ptype, next_ether_type, header_len, expected_payload_len, payload_len,
+           is_fragmenting_payload, dscp, ecn, sender_address, fcs, header_slice, payload_slice,
+           payload, payload_len_source, the ARP address accessors) applied to the stored slices,
+           a window = (pointer offset, length) of the returned sub-slice; the stored
+           IpPayloadSlice fields; TcpSlice::header_len() / Icmpv6Slice::header_len() (stored
+           field / constant, defined in Fields2.v).
+   `C03_wire_desc` is a statement ABOUT the reference decoder (Parse/WireDesc.v): the payload
+   descriptor of every accepted view is the one the octets prescribe (`net_desc`, pinned
+   below); it is what ties the stored IP payload descriptor to the bytes. *)
+From EP Require Import Parse.WireDesc Parse.Fields2 Parse.Fields2Proofs.
+
+Theorem C03_wire_desc : forall bs et v,
+  (wire_ethernet bs = VOk v -> desc bs v) /\
+  (wire_linux_sll bs = VOk v -> desc bs v) /\
+  (wire_ether_type bs et = VOk v -> desc bs v) /\
+  (wire_from_ip bs = VOk v -> desc bs v).
+Proof. exact wire_desc. Qed.
+Print Assumptions C03_wire_desc.
+
+Theorem C03_fields2_from_ethernet : forall bs p, bytes_ok bs ->
+  SlicedPacket.from_ethernet bs = Ok p ->
+  wire_ethernet bs = VOk (view p) /\ fields2_of_packet p = Ok (spec_fields2 bs (view p)).
+Proof. exact fields2_wire_from_ethernet. Qed.
+Print Assumptions C03_fields2_from_ethernet.
+
+Theorem C03_fields2_from_linux_sll : forall bs p, bytes_ok bs ->
+  SlicedPacket.from_linux_sll bs = Ok p ->
+  wire_linux_sll bs = VOk (view p) /\ fields2_of_packet p = Ok (spec_fields2 bs (view p)).
+Proof. exact fields2_wire_from_linux_sll. Qed.
+Print Assumptions C03_fields2_from_linux_sll.
+
+Theorem C03_fields2_from_ether_type : forall bs et p, bytes_ok bs ->
+  SlicedPacket.from_ether_type et bs = Ok p ->
+  wire_ether_type bs et = VOk (view p) /\ fields2_of_packet p = Ok (spec_fields2 bs (view p)).
+Proof. exact fields2_wire_from_ether_type. Qed.
+Print Assumptions C03_fields2_from_ether_type.
+
+Theorem C03_fields2_from_ip : forall bs p, bytes_ok bs ->
+  SlicedPacket.from_ip bs = Ok p ->
+  wire_from_ip bs = VOk (view p) /\ fields2_of_packet p = Ok (spec_fields2 bs (view p)).
+Proof. exact fields2_wire_from_ip. Qed.
+Print Assumptions C03_fields2_from_ip.
+
+(* what the specification says, layer kind by layer kind (definitional unfoldings) *)
+Example C03_desc_pin : forall bs h auth p first frag x,
+  desc bs = (fun v => match v_net v with None => True | Some nn => net_desc bs nn end) /\
+  net_desc bs (VIpv4 h auth p) =
+    (vip_number p = match auth with Some a => B bs (fst a) | None => B bs (fst h + 9) end /\
+     vip_frag p = (negb ((B bs (fst h + 6) / 32) mod 2 =? 0) || negb (W bs (fst h + 6) mod 8192 =? 0))) /\
+  net_desc bs (VIpv6 h first frag x p) =
+    (chain_end bs (S (N.to_nat (snd x))) (B bs (fst h + 6)) (fst x) (fst x + snd x) false
+       = (vip_number p, vip_frag p) /\
+     frag = vip_frag p /\
+     vip_src p = (if (W bs (fst h + 4) =? 0) && (0 <? snd x + snd (vip_win p))
+                  then LsSlice else LsIpv6HeaderPayloadLen)).
+Proof. repeat split. Qed.
+Example C03_desc_pin_chain : forall bs f nh pos lim fr,
+  chain_end bs (S f) nh pos lim fr =
+    (if lim <=? pos then (nh, fr)
+     else if (nh =? 0) || (nh =? 43) || (nh =? 60) then
+       chain_end bs f (B bs pos) (pos + (B bs (pos + 1) + 1) * 8) lim fr
+     else if nh =? 44 then
+       chain_end bs f (B bs pos) (pos + 8) lim
+         (fr || (negb (B bs (pos + 3) mod 2 =? 0) || negb (W bs (pos + 2) / 8 =? 0)))
+     else if nh =? 51 then
+       chain_end bs f (B bs pos) (pos + (B bs (pos + 1) + 2) * 4) lim fr
+     else (nh, fr)) /\
+  chain_end bs 0 nh pos lim fr = (nh, fr).
+Proof. repeat split. Qed.
+Example C03_fields2_pin_macsec : forall bs p,
+  macsec_spec2 bs p =
+  (let e := flag bs p 1 4 in
+   let c := flag bs p 1 5 in
+   let sc := flag bs p 1 2 in
+   let sl := bits bs (p + 1) 1 2 6 in
+   let unmod := negb e && negb c in
+   let et := W bs (p + 6 + (if sc then 8 else 0)) in
+   [(Dis_unmodified, DvB unmod);
+    (Dptype, DvN (if e then (if c then 3 else 2) else if c then 1 else 0));
+    (Dptype_ether_type, DvOptN (if unmod then Some et else None));
+    (Dnext_ether_type, DvOptN (if unmod then Some et else None));
+    (Dheader_len, DvN (6 + (if sc then 8 else 0) + (if unmod then 2 else 0)));
+    (Dexpected_payload_len,
+     DvOptN (if sl =? 0 then None
+             else if unmod then (if sl <? 2 then None else Some (sl - 2))
+             else Some sl))]).
+Proof. reflexivity. Qed.
+Example C03_fields2_pin_ip : forall bs h a x cend,
+  ipv4_spec2 bs h a =
+  (let p := fst h in
+   let fr := flag bs (p + 6) 2 2 || negb (bits bs (p + 6) 2 3 13 =? 0) in
+   let start := match a with Some w => fst w + snd w | None => fst h + snd h end in
+   [(Dpayload_len, DvN (W bs (p + 2) - bits bs p 1 4 4 * 4));
+    (Dis_fragmenting_payload, DvB fr);
+    (Dpl_ip_number, DvN (match a with Some w => B bs (fst w) | None => B bs (p + 9) end));
+    (Dpl_fragmented, DvB fr);
+    (Dpl_len_source, DvSrc LsIpv4HeaderTotalLen);
+    (Dpl_window, DvWin (start, p + W bs (p + 2) - start))]) /\
+  ipv6_spec2 bs h x cend =
+  (let p := fst h in
+   let ne := chain_end_b bs (S (N.to_nat (snd x))) (B bs (p + 6)) (fst x) (fst x + snd x) false in
+   let pend := if W bs (p + 4) =? 0 then cend else p + 40 + W bs (p + 4) in
+   [(Ddscp, DvN (bits bs p 2 4 6)); (Decn, DvN (bits bs p 2 10 2));
+    (Dpl_ip_number, DvN (fst ne)); (Dpl_fragmented, DvB (snd ne));
+    (Dpl_len_source,
+     DvSrc (if (W bs (p + 4) =? 0) && (p + 40 <? cend) then LsSlice else LsIpv6HeaderPayloadLen));
+    (Dpl_window, DvWin (fst x + snd x, pend - (fst x + snd x)))]) /\
+  frag_fragments_spec bs (fst h) =
+    (flag bs (fst h + 2) 2 15 || negb (bits bs (fst h + 2) 2 0 13 =? 0)).
+Proof. repeat split. Qed.
+Example C03_fields2_pin_link_transport : forall bs w h,
+  eth_spec2 w = [(Dfcs, DvOptBytes None); (Dheader, DvWin (fst w, 14));
+                 (Dpayload, DvWin (fst w + 14, snd w - 14))] /\
+  sll_spec2 bs h w = [(Dsender_address, DvWin (fst h + 6, N.min (W bs (fst h + 4)) 8));
+                      (Dpayload, DvWin (fst w + 16, snd w - 16))] /\
+  vlan_spec2 w = [(Dheader, DvWin (fst w, 4)); (Dpayload, DvWin (fst w + 4, snd w - 4))] /\
+  arp_spec2 bs (fst w) =
+    (let hln := B bs (fst w + 4) in let pln := B bs (fst w + 5) in
+     [(Dsender_hw, DvWin (fst w + 8, hln)); (Dsender_proto, DvWin (fst w + 8 + hln, pln));
+      (Dtarget_hw, DvWin (fst w + 8 + hln + pln, hln));
+      (Dtarget_proto, DvWin (fst w + 8 + hln + pln + hln, pln))]) /\
+  udp_spec2 bs w =
+    [(Dheader, DvWin (fst w, 8)); (Dpayload, DvWin (fst w + 8, snd w - 8));
+     (Dpayload_len_source, DvSrc (if W bs (fst w + 4) =? 0 then LsSlice else LsUdpHeaderLen))] /\
+  tcp_spec2 bs w =
+    (let hl := bits bs (fst w + 12) 1 0 4 * 4 in
+     [(Dheader_len, DvN hl); (Dheader, DvWin (fst w, hl)); (Dpayload, DvWin (fst w + hl, snd w - hl))]) /\
+  icmp4_spec2 bs w =
+    (let hl := if ((B bs (fst w) =? 13) || (B bs (fst w) =? 14)) && (B bs (fst w + 1) =? 0) then 20 else 8 in
+     [(Dheader_len, DvN hl); (Dpayload, DvWin (fst w + hl, snd w - hl))]) /\
+  icmp6_spec2 w = [(Dheader_len, DvN 8); (Dpayload, DvWin (fst w + 8, snd w - 8))].
+Proof. repeat split. Qed.
+Example C03_fields2_pin_view : forall bs v,
+  spec_fields2 bs v =
+    dopt (spec_link2 bs) (v_link v) ++ map (spec_ext2 bs) (v_exts v) ++
+    dopt (spec_net2 bs (wend (exts_final (link_payload bs (v_link v)) (v_exts v)))) (v_net v) ++
+    dopt (spec_tr2 bs) (v_transport v).
+Proof. reflexivity. Qed.
+
+(* non-vacuity: the Ethernet / VLAN / IPv4 / UDP packet of C03_ex_ok; IPv6 (traffic class 0xab)
+   / hop-by-hop / fragment (offset 0, M 1) / 20 payload octets; ether type 0x8100: VLAN /
+   MACsec (SC, unmodified, SL 0) / ARP; MACsec with C set and SL 5; Linux SLL with a 6 octet
+   address; an ICMPv4 timestamp message *)
+Example C03_fields2_ex :
+  exists p, SlicedPacket.from_ethernet ex_pkt = Ok p /\
+    fields2_of_packet p =
+      Ok [(LEth, [(Dfcs, DvOptBytes None); (Dheader, DvWin (0, 14)); (Dpayload, DvWin (14, 36))]);
+          (LVlan, [(Dheader, DvWin (14, 4)); (Dpayload, DvWin (18, 32))]);
+          (LIpv4, [(Dpayload_len, DvN 12); (Dis_fragmenting_payload, DvB false); (Dpl_ip_number, DvN 17);
+                   (Dpl_fragmented, DvB false); (Dpl_len_source, DvSrc LsIpv4HeaderTotalLen);
+                   (Dpl_window, DvWin (38, 12))]);
+          (LUdp, [(Dheader, DvWin (38, 8)); (Dpayload, DvWin (46, 4));
+                  (Dpayload_len_source, DvSrc LsUdpHeaderLen)])] /\
+    fields2_of_packet p = Ok (spec_fields2 ex_pkt (view p)).
+Proof. eexists. split; [vm_compute; reflexivity|split; vm_compute; reflexivity]. Qed.
+
+Definition ex6f_pkt : bytes :=
+  [106;188;222;241; 0;36; 0; 64] ++ repeat 17 16 ++ repeat 34 16 ++
+  [44;0;1;2;3;4;5;6] ++ [6;0;0;1; 0;0;0;9] ++
+  [0;80; 1;187; 0;0;0;1; 0;0;0;2; 81;18; 16;0; 171;205; 0;7].
+Example C03_fields2_ex6 :
+  bytes_ok ex6f_pkt /\
+  exists p, SlicedPacket.from_ip ex6f_pkt = Ok p /\
+    fields2_of_packet p =
+      Ok [(LIpv6, [(Ddscp, DvN 42); (Decn, DvN 3); (Dpl_ip_number, DvN 6); (Dpl_fragmented, DvB true);
+                   (Dpl_len_source, DvSrc LsIpv6HeaderPayloadLen); (Dpl_window, DvWin (56, 20))]);
+          (LFragment, [(Dis_fragmenting_payload, DvB true)])] /\
+    fields2_of_packet p = Ok (spec_fields2 ex6f_pkt (view p)).
+Proof.
+  split; [apply bytes_okb_spec; vm_compute; reflexivity|].
+  eexists. split; [vm_compute; reflexivity|split; vm_compute; reflexivity].
+Qed.
+
+Example C03_fields2_ex_et :
+  exists p, SlicedPacket.from_ether_type 33024 ex_et = Ok p /\
+    fields2_of_packet p =
+      Ok [(LVlan, [(Dheader, DvWin (0, 4)); (Dpayload, DvWin (4, 44))]);
+          (LMacsec, [(Dis_unmodified, DvB true); (Dptype, DvN 0); (Dptype_ether_type, DvOptN (Some 2054));
+                     (Dnext_ether_type, DvOptN (Some 2054)); (Dheader_len, DvN 16);
+                     (Dexpected_payload_len, DvOptN None)]);
+          (LArp, [(Dsender_hw, DvWin (28, 6)); (Dsender_proto, DvWin (34, 4));
+                  (Dtarget_hw, DvWin (38, 6)); (Dtarget_proto, DvWin (44, 4))])] /\
+    fields2_of_packet p = Ok (spec_fields2 ex_et (view p)).
+Proof. eexists. split; [vm_compute; reflexivity|split; vm_compute; reflexivity]. Qed.
+
+Definition ex_msm : bytes := [4;5; 0;0;0;9; 1;2;3;4;5; 9;9].
+Example C03_fields2_ex_macsec_modified :
+  exists p, SlicedPacket.from_ether_type 35045 ex_msm = Ok p /\
+    fields2_of_packet p =
+      Ok [(LMacsec, [(Dis_unmodified, DvB false); (Dptype, DvN 1); (Dptype_ether_type, DvOptN None);
+                     (Dnext_ether_type, DvOptN None); (Dheader_len, DvN 6);
+                     (Dexpected_payload_len, DvOptN (Some 5))])] /\
+    fields2_of_packet p = Ok (spec_fields2 ex_msm (view p)).
+Proof. eexists. split; [vm_compute; reflexivity|split; vm_compute; reflexivity]. Qed.
+
+Example C03_fields2_ex_sll :
+  exists p, SlicedPacket.from_linux_sll ex_sll = Ok p /\
+    fields2_of_packet p = Ok (spec_fields2 ex_sll (view p)) /\
+    hd_error (spec_fields2 ex_sll (view p)) =
+      Some (LSll, [(Dsender_address, DvWin (6, 6)); (Dpayload, DvWin (16, 32))]).
+Proof. eexists. split; [vm_compute; reflexivity|split; vm_compute; reflexivity]. Qed.
+
+Definition ex_ts : bytes :=
+  [69;0;0;40; 0;0;0;0; 64;1;0;0; 1;2;3;4; 5;6;7;8] ++ [13;0;0;0; 0;1;0;2] ++ repeat 7 12.
+Example C03_fields2_ex_icmp_ts :
+  exists p, SlicedPacket.from_ip ex_ts = Ok p /\
+    fields2_of_packet p = Ok (spec_fields2 ex_ts (view p)) /\
+    last (spec_fields2 ex_ts (view p)) (LEth, []) =
+      (LIcmp4, [(Dheader_len, DvN 20); (Dpayload, DvWin (40, 0))]).
+Proof. eexists. split; [vm_compute; reflexivity|split; vm_compute; reflexivity]. Qed.
